@@ -140,13 +140,20 @@ class UTPM(Ring, RawAlgorithmsMixIn):
         if isinstance(rhs, UTPM):
             if not isinstance(sl, tuple):
                 sl = (sl,)
-            x_data, y_data = UTPM._broadcast_arrays(self.data.__getitem__((slice(None),slice(None)) + sl), rhs.data)
-            return x_data.__setitem__(Ellipsis, y_data)
+            sel = self.data.__getitem__((slice(None),slice(None)) + sl)
+            x_data, y_data = UTPM._broadcast_arrays(sel, rhs.data)
+            if numpy.shares_memory(sel, self.data) or sel.size == 0:
+                return x_data.__setitem__(Ellipsis, y_data)
+            # an index array or a boolean mask selects a copy: assign through
+            # self.data itself
+            return self.data.__setitem__((slice(None),slice(None)) + sl, y_data.reshape(sel.shape))
         else:
             if not isinstance(sl, tuple):
                 sl = (sl,)
             self.data.__setitem__((slice(1,None),slice(None)) + sl, 0)
-            return self.data.__setitem__((0,slice(None)) + sl, rhs)
+            # index the zeroth coefficient first: an integer next to an index
+            # array in one index tuple would reorder the axes
+            return self.data[0].__setitem__((slice(None),) + sl, rhs)
 
 
     @property
